@@ -44,7 +44,7 @@ class Contract:
 
 
 class Registry(dict):
-    def add(self, key, **kw):
+    def add(self, key=None, **kw):
         c = Contract(key, **kw)
         self[key] = c
         return c
